@@ -1212,8 +1212,11 @@ def main(tier):
         'exception escapes again shows up as a broken correspondence and as the violation filter-error-aborts-run',
         'str.lower is modelled for ASCII; generated names, tags, categories are ASCII; years 1000..9999',
         'is_excluded_from_spending is regenerated from classification.py (tools/py2coq.py) on every run',
-        'by_merchant construction (grouping of transactions by merchant name, total = sum of effective amounts) is C06\'s; '
-        'here it is tied only through the correspondence']
+        'by_merchant construction (grouping of the interleaved transactions by merchant name, tags union, effective amounts via the '
+        'regenerated normalize_amount) is inside the model (ViewEval.by_merchant, c10_by_merchant_spec, c10_excluded_spec): the Coq '
+        'cases receive the raw transaction list; category/subcategory are generated constant per merchant',
+        'the decimal-amount stream (non-dyadic cents) runs through the model for the light shapes; view totals of that stream are '
+        'compared up to rounding by the direct oracle only']
     tfails = [f for f in c13.translate_classification(run) if f['translator'] == 'py2coq']
     res = run.proof_step(COQ_FILES, extra_trusted=[
         'tools/py2coq.py (translator, fail closed)', 'harness/c10.py + harness/impl_c10.py (generator, AST rendering, oracle)',
